@@ -1,5 +1,6 @@
 """C18 - the same configuration means the same thing in every config format."""
 from campaigns.siblings import Siblings
+from campaigns.badconfig import BadConfig
 
 PROPERTY = "C18"
 LEVEL = "exploration"
@@ -14,7 +15,8 @@ RULE = ("SIBLINGS: one abstract configuration (version, pattern (v2 or legacy), 
 ASSUMPTIONS = ["only configurations expressible in both syntaxes are generated (no leading/trailing blanks, no empty strings that INI cannot hold)",
                "the implicit self-pattern legitimately mirrors each sibling's own quoting and is compared against that sibling's own line"]
 COMPONENTS = {"bumpver config loader, cli show/update": "real", "VCS": "FakeRepo", "files": "six real scratch directories per run"}
-CAMPAIGNS = [Siblings("C18", quick=2000, thorough=50000)]
+CAMPAIGNS = [Siblings("C18", quick=2000, thorough=50000),
+             BadConfig("C18", "no_delim", quick=300, thorough=6000)]
 
 
 def sanity_gate(tier, total):
